@@ -35,6 +35,10 @@ pub enum Act {
     Onboard { number: u64, dl_off: u64 },
     /// declare faults with a wrong partition index (a batch entry that must not corrupt anything)
     DeclareFaultsWrongPartition(Vec<u64>),
+    /// the same declaration listed twice in one message (batch entries naming a sector twice)
+    DeclareFaultsDup(Vec<u64>),
+    DeclareRecoveredDup(Vec<u64>),
+    TerminateDup(Vec<u64>),
     /// pre-commit a committed-capacity sector (locks a pre-commit deposit)
     PreCommit(u64),
     /// prove-commit a pre-committed sector (deposit released, pledge locked); bad = invalid proof
@@ -680,6 +684,9 @@ impl Scenario for Life {
             Act::Compact(_) => "compact".into(),
             Act::Onboard { .. } => "onboard".into(),
             Act::DeclareFaultsWrongPartition(_) => "declare-faults(wrong partition)".into(),
+            Act::DeclareFaultsDup(_) => "declare-faults(declaration listed twice)".into(),
+            Act::DeclareRecoveredDup(_) => "declare-recovered(declaration listed twice)".into(),
+            Act::TerminateDup(_) => "terminate(declaration listed twice)".into(),
             Act::PreCommit(_) => "pre-commit".into(),
             Act::ProveCommit(_, bad) => format!("prove-commit bad={bad}"),
             Act::ProveCommitTwice(_) => "prove-commit (sector named twice)".into(),
@@ -721,6 +728,11 @@ impl Scenario for Life {
             v.push(Act::Terminate(set.clone()));
         }
         v.push(Act::DeclareFaultsWrongPartition(vec![1]));
+        if let Some(set) = self.cfg.sector_sets.first() {
+            v.push(Act::DeclareFaultsDup(set.clone()));
+            v.push(Act::DeclareRecoveredDup(set.clone()));
+            v.push(Act::TerminateDup(set.clone()));
+        }
         for d in 0..4 {
             v.push(Act::Dispute(d));
             v.push(Act::Compact(d));
@@ -871,8 +883,11 @@ impl Scenario for Life {
                     outcome = "rejected";
                 }
             }
-            Act::DeclareFaults(set) | Act::DeclareFaultsWrongPartition(set) => {
+            Act::DeclareFaults(set) | Act::DeclareFaultsWrongPartition(set) | Act::DeclareFaultsDup(set) => {
                 let mut decls = Self::decls(&before, set);
+                if matches!(a, Act::DeclareFaultsDup(_)) {
+                    decls.extend(decls.clone());
+                }
                 if matches!(a, Act::DeclareFaultsWrongPartition(_)) {
                     for d in decls.iter_mut() {
                         d.1 += 1;
@@ -908,8 +923,11 @@ impl Scenario for Life {
                     outcome = "rejected";
                 }
             }
-            Act::DeclareRecovered(set) => {
-                let decls = Self::decls(&before, set);
+            Act::DeclareRecovered(set) | Act::DeclareRecoveredDup(set) => {
+                let mut decls = Self::decls(&before, set);
+                if matches!(a, Act::DeclareRecoveredDup(_)) {
+                    decls.extend(decls.clone());
+                }
                 let r = declare_recovered(vm, c.w, c.m, &decls);
                 if let Err(e) = all_ok(&r) {
                     bad!(e);
@@ -935,8 +953,11 @@ impl Scenario for Life {
                     outcome = "rejected";
                 }
             }
-            Act::Terminate(set) => {
-                let decls = Self::decls(&before, set);
+            Act::Terminate(set) | Act::TerminateDup(set) => {
+                let mut decls = Self::decls(&before, set);
+                if matches!(a, Act::TerminateDup(_)) {
+                    decls.extend(decls.clone());
+                }
                 let est = est_now(vm);
                 let r = terminate(vm, c.w, c.m, &decls);
                 if let Err(e) = all_ok(&r) {
